@@ -68,3 +68,11 @@ let out_comps cs =
     (List.map (function CRoot -> "R" | CCur -> "C" | CParent -> "P" | CNormal s -> "N" ^ hex_str s) cs)
 let out_opt_str = function Some s -> out_str s | None -> "NONE"
 let out_outcome f = function Done a -> f a | Panic -> "PANIC" | OutOfFuel -> "OUTOFFUEL"
+
+let errkind_s = function
+  | EItemNotFound -> "E:IterItemNotFound" | EParentNotFound -> "E:ParentNotFound"
+  | EExtensionNotFound -> "E:ExtensionNotFound" | EEmpty -> "E:Empty"
+  | EInvalidExpansion -> "E:InvalidExpansion" | EMultipleHomeSymbols -> "E:MultipleHomeSymbols"
+  | EVarNotPresent -> "E:VarNotPresent" | EOther -> "E:Other"
+let out_res f = function Inl a -> f a | Inr e -> errkind_s e
+let out_strlist l = "L:" ^ String.concat "," (List.map hex_str l)
